@@ -7,7 +7,7 @@ idx = json.load(open(os.path.join(ROOT, "seeded", "index.json")))
 for name, e in sorted(idx.items()):
     if sys.argv[1:] and not any(a in name for a in sys.argv[1:]): continue
     r = subprocess.run([os.path.join(ROOT, "tools", "check_seed.sh"), os.path.join(ROOT, "seeded", name), e["demo"], e["pkg"], e["run"]] + e["props"],
-                       stdout=subprocess.PIPE, stderr=subprocess.STDOUT, text=True)
+                       stdout=subprocess.PIPE, stderr=subprocess.STDOUT, text=True, env=dict(os.environ, SEED_RACE="1" if e.get("race") else "0"))
     lines = [l for l in r.stdout.splitlines() if l.startswith(("CHECK", "demo", "repo suite", "patch", "does not"))]
     print("== %s (rc=%d)\n   %s" % (name, r.returncode, "\n   ".join(lines)))
     sys.stdout.flush()
